@@ -670,3 +670,82 @@ def _mustdef_in_region(cfg: CFG, f: Func, region: ast.AST | None, rd: ast.AST, n
         if st is not None and name not in st:
             return False
     return True
+
+
+# ------------------------------------------------------------------------------------------------ SPACETAB
+_SPACETAB_POSITIVE = r"[0-9]{1,9}[.)](?= |$)"
+
+
+def _space_without_tab(pattern: str) -> list[str]:
+    """Places of a regular expression that accept U+0020 but not U+0009 in the same class / alternation."""
+    import re._parser as sp          # type: ignore[import-not-found]
+    try:
+        tree = sp.parse(pattern)
+    except Exception:          # noqa: BLE001
+        return []
+    bad: list[str] = []
+
+    def accepts(item, ch: int) -> bool:
+        op, av = item
+        name = str(op)
+        if name == "LITERAL":
+            return av == ch
+        if name == "RANGE":
+            return av[0] <= ch <= av[1]
+        if name == "CATEGORY":
+            return "SPACE" in str(av) and "NOT" not in str(av)
+        return False
+
+    def walk(seq) -> None:
+        for op, av in seq:
+            name = str(op)
+            if name == "LITERAL" and av == 0x20:
+                bad.append("a literal space")
+            elif name == "IN":
+                items = [x for x in av if str(x[0]) != "NEGATE"]
+                neg = any(str(x[0]) == "NEGATE" for x in av)
+                if not neg and any(accepts(x, 0x20) for x in items) and not any(accepts(x, 0x09) for x in items):
+                    bad.append("a character class with space but no tab")
+            elif name == "BRANCH":
+                alts = av[1]
+                # single-character alternatives: ( |$), ( |\t)
+                singles = [a for a in alts if len(a) == 1]
+                has_sp = any(str(a[0][0]) == "LITERAL" and a[0][1] == 0x20 for a in singles)
+                has_tab = any(accepts(a[0], 0x09) for a in singles)
+                if has_sp and not has_tab:
+                    bad.append("an alternation with space but no tab")
+                for a in alts:
+                    walk([x for x in a if not (len(a) == 1 and str(x[0]) == "LITERAL" and x[1] == 0x20)])
+            elif name in ("SUBPATTERN",):
+                walk(av[3])
+            elif name in ("MAX_REPEAT", "MIN_REPEAT", "POSSESSIVE_REPEAT"):
+                walk(av[2])
+            elif name in ("ASSERT", "ASSERT_NOT"):
+                walk(av[1])
+            elif name == "ATOMIC_GROUP":
+                walk(av)
+    walk(tree)
+    return bad
+
+
+def rule_spacetab(c: Ctx) -> RuleResult:
+    r = RuleResult("SPACETAB", "a regular expression applied by a block rule accepts a tab wherever it accepts a space (structural "
+                               "whitespace is space-or-tab; the hand-written scanners use isStrSpace)")
+    planted = _space_without_tab(_SPACETAB_POSITIVE)
+    if not planted:
+        raise AnchorError("SPACETAB self-example did not match: the lint is broken")
+    r.add("self-example", "<built-in>", "-", _SPACETAB_POSITIVE, "discharged", "trivial: the planted positive example is recognised (the lint is alive)")
+    n = 0
+    for (m, name, pat, flags, node) in c.p.regex_constants():
+        if not m.rel.startswith("rules_block/"):
+            continue
+        n += 1
+        bad = _space_without_tab(pat)
+        where = f"markdown_it/{m.rel}:{getattr(node, 'lineno', 0)}"
+        key = f"{m.rel}|{name or pat[:30]}"
+        r.add(key, where, m.rel, repr(pat)[:70], "violation" if bad else "discharged",
+              (f"the pattern has {bad[0]}: a marker followed by a tab is treated differently from the same marker followed by a space "
+               f"(tab / space equivalence of structural whitespace)") if bad else "no place of the pattern accepts a space without accepting a tab")
+    r.notes.append(f"{n} regular expressions of the block rules examined")
+    r.floor = 1
+    return r
